@@ -568,6 +568,14 @@ func Schemas07(thorough bool) *Set {
 		s.Add("Psib", `{"definitions":{"d":{"type":["integer","object","string"]}},"patternProperties":{"^a":`+inner+`}}`)
 		s.Add("Psib", `{"definitions":{"d":{"type":["integer","object","string"]}},"if":{"type":"object"},"then":`+inner+`,"else":`+inner+`}`)
 	}
+	// a fragment-only $id beside $ref is ignored like every other sibling: the name stays free for
+	// (or is not stolen from) a genuine anchor elsewhere, before or after it in traversal order
+	for _, pair := range [][2]string{{"a", "b"}, {"b", "a"}, {"a", "z"}} {
+		sib, gen := pair[0], pair[1]
+		s.Add("Psib", `{"definitions":{"`+sib+`":{"$id":"#k","$ref":"#/definitions/t"},"`+gen+`":{"$id":"#k","type":"string"},"t":{"type":"integer"}},"allOf":[{"$ref":"#k"}]}`)
+		s.Add("Psib", `{"definitions":{"`+sib+`":{"$id":"#k","$ref":"#/definitions/t"},"`+gen+`":{"$id":"#k","type":"string"},"t":{"type":"integer"}},"properties":{"a":{"$ref":"#k"},"b":{"$ref":"#/definitions/`+sib+`"}}}`)
+	}
+	s.Add("Psib", `{"properties":{"p":{"$id":"#k","$ref":"#/definitions/t"}},"definitions":{"t":{"type":"integer"},"u":{"$id":"#k","type":"object"}},"items":{"$ref":"#k"}}`)
 	// recursion
 	for _, a := range filter(atoms, "type", "required", "minimum", "maxProperties", "minItems") {
 		s.Add("Prec", Obj(KV{"properties", `{"a":{"$ref":"#"}}`}, a))
